@@ -90,7 +90,12 @@ def _run_case(c, retry):
     L = c['L']
 
     class A:
-        pass
+        # two distinct instances that compare equal and hash alike (a value object): 'self' scope is per INSTANCE all the same
+        def __eq__(self, other):
+            return type(other) is type(self)
+
+        def __hash__(self):
+            return 7
 
     class B:
         pass
